@@ -126,6 +126,13 @@ func HarnessC09Authorizations() {
 		}
 	}
 
+	// optionally a later, fully approved push, so that verification covers a
+	// range of entries and meets attestation entries recorded in between
+	if verif.ConcreteBool(verif.Bool("later.push")) {
+		zzMust(w.zzAuthorizeConcrete([3]string{zzMain, w.tips[zzMain].String(), w.zzTree(3).String()}, []int{1, 2}))
+		w.zzPush(zzMain, 0, 3, false)
+	}
+
 	_, err := zzVerifyFull(w, zzMain)
 
 	// reference: principals counted for this change
